@@ -171,7 +171,7 @@ func TestC19(t *testing.T) {
 		}
 		if p.Jitter {
 			// hook jitter is process-global; harmless for other cases
-			plugin.VerifSetHook(vp.Jitter(int64(c.ID), 2000, nil, "client.start.launched", "client.kill.closing"))
+			plugin.VerifSetHook(vp.Jitter(int64(c.ID), 2000, nil, "client.start.launched", "client.start.waiting", "client.kill.closing"))
 		}
 		var wg sync.WaitGroup
 		for gi, ops := range p.Threads {
